@@ -58,6 +58,13 @@ def gen(rng, i, tier):
             ops.append(["cset", rng.randrange(4), rng.choice(G.CHART_KEYS + ["NOTES"]), G.rand_value(rng)])
         else:
             ops.append(["cattr", rng.randrange(4), rng.choice(["notes", "meter", "chartname", "displaybpm"]), G.rand_value(rng)])
+        # the mapping's other mutators (they bypass __setitem__/__delitem__), with a serialization in front now and then
+        if rng.random() < 0.12:
+            if rng.random() < 0.5:
+                ops.append(["ser"])
+            ops.append(rng.choice([["pop", G.rand_key(rng, G.SSC_KEYS)], ["popitem"], ["move", G.rand_key(rng, G.SSC_KEYS), rng.random() < 0.5],
+                                   ["cpop", rng.randrange(4), rng.choice(G.CHART_KEYS)], ["cpopitem", rng.randrange(4)],
+                                   ["cmove", rng.randrange(4), rng.choice(G.CHART_KEYS), rng.random() < 0.5], ["cserial", rng.randrange(4)]]))
     start = rng.choice(["blank"] * 15 + ["empty"] * 14 + ["corpus0", "corpus1"])
     if start == "empty" and rng.random() < 0.6:
         ops.insert(0, ["set", "VERSION", "0.83"])
@@ -97,6 +104,23 @@ def build(c):
                 del sf.charts[op[1]]
             elif op[0] == "reverse":
                 sf.charts.reverse()
+            elif op[0] == "pop":
+                sf.pop(op[1], None)
+            elif op[0] == "popitem":
+                if len(sf) > 1:
+                    sf.popitem()
+            elif op[0] == "move":
+                sf.move_to_end(op[1], last=op[2])
+            elif op[0] == "cpop":
+                sf.charts[op[1]].pop(op[2], None)
+            elif op[0] == "cpopitem":
+                ch = sf.charts[op[1]]
+                if len(ch) > 1 and next(reversed(ch)) not in ("NOTES", "NOTES2"):
+                    ch.popitem()
+            elif op[0] == "cmove":
+                sf.charts[op[1]].move_to_end(op[2], last=op[3])
+            elif op[0] == "cserial":
+                str(sf.charts[op[1]])
             elif op[0] == "cset":
                 sf.charts[op[1]][op[2]] = op[3]
             elif op[0] == "cattr":
